@@ -23,16 +23,16 @@ func init() {
 }
 
 type gmember struct {
-	idx      int
-	fail     bool
-	waiter   bool // only returns once its context is done (with the context's error)
-	aware    bool // returns the context's error instead of its outcome if the context is already done when it runs
-	invoked  bool
-	invSeq   int
-	retSeq   int // 0 = not returned
-	ctxDone  bool // context already done when the member was released
-	err      error
-	msg      proto.Message
+	idx     int
+	fail    bool
+	waiter  bool // only returns once its context is done (with the context's error)
+	aware   bool // returns the context's error instead of its outcome if the context is already done when it runs
+	invoked bool
+	invSeq  int
+	retSeq  int  // 0 = not returned
+	ctxDone bool // context already done when the member was released
+	err     error
+	msg     proto.Message
 }
 
 func groupRun(w *World) {
